@@ -257,6 +257,7 @@ class Engine:
         self.class_ids: dict = {}
         self.class_by_id: dict = {}
         self.contracts = contracts or {}  # key "module:qualname" -> Contract (modular use)
+        self.local_classes = {}  # stand-in class object -> {"methods": {name: Closure}, "attrs": {name: value}} for `class` statements inside functions
         self.global_overrides: dict = {}  # (module, name) -> value factory
         self.field_types: dict = {}  # (clsname, field) -> predicate(term) -> z3 Bool
         self.models: dict = {}  # id(obj) -> Model
@@ -746,6 +747,11 @@ class Engine:
 
     def lookup_method(self, pycls, name):
         """Static MRO lookup returning a Closure/Model for a plain function attribute, else None."""
+        lc = self.local_classes.get(pycls)
+        if lc is not None:
+            if (pycls, name) in self.method_models:
+                return self.method_models[(pycls, name)]
+            return lc["methods"].get(name)
         for c in inspect.getmro(pycls):
             if (c, name) in self.method_models:
                 return self.method_models[(c, name)]
@@ -927,6 +933,15 @@ class Engine:
         m = self.models.get(id(pycls))
         if m is not None:
             yield from m.fn(self, st, list(args), dict(kwargs))
+            return
+        if pycls in self.local_classes:
+            obj = self.alloc(st, pycls)
+            init = self.lookup_method(pycls, "__init__")
+            if init is None:
+                yield st, obj
+                return
+            for st2, r in self.call(init, [obj] + list(args), kwargs, st, line):
+                yield st2, (r if isinstance(r, Raise) else obj)
             return
         if pycls is object and not args and not kwargs:
             # a fresh sentinel object: distinct from every value that existed before
@@ -1457,6 +1472,54 @@ class Engine:
                         yield from apply(i + 1, r, st2)
 
         yield from apply(0, vals[0], st)
+
+    def s_ClassDef(self, node, st, fr):
+        """A ``class`` statement inside a function: a new class whose methods are closures over the enclosing frame.
+        Supported: no bases or keywords; a body of method definitions, ``__slots__`` and plain constant attributes."""
+        if node.bases or node.keywords:
+            raise Unsupported(f"local class {node.name} with base classes")
+        standin = type(node.name, (), {"__slots__": ()})
+        methods, attrs = {}, {}
+        for b in node.body:
+            if isinstance(b, ast.Expr) and isinstance(b.value, ast.Constant):
+                continue
+            if isinstance(b, ast.Pass):
+                continue
+            if isinstance(b, ast.FunctionDef):
+                if b.decorator_list:
+                    raise Unsupported(f"decorated method in local class {node.name}")
+                cl = self.make_closure(b, st, fr)
+                cl.owner = standin
+                methods[b.name] = cl
+                continue
+            if isinstance(b, ast.Assign) and len(b.targets) == 1 and isinstance(b.targets[0], ast.Name):
+                rs = list(self.eval(b.value, st, fr))
+                if len(rs) != 1 or isinstance(rs[0][1], Raise):
+                    raise Unsupported(f"class attribute of local class {node.name} forks or raises")
+                if b.targets[0].id != "__slots__":
+                    attrs[b.targets[0].id] = rs[0][1]
+                continue
+            raise Unsupported(f"statement {type(b).__name__} in the body of local class {node.name}")
+        self.local_classes[standin] = {"methods": methods, "attrs": attrs, "node": node}
+        self.class_id(standin)
+        decos = list(reversed(node.decorator_list))
+
+        def apply(i, cur, st_):
+            if i == len(decos):
+                self.store_name(node.name, cur, st_, fr)
+                yield st_, None
+                return
+            for st1, d in self.eval(decos[i], st_, fr):
+                if isinstance(d, Raise):
+                    yield st1, ("raise", d.exc)
+                    continue
+                for st2, r in self.call(d, [cur], {}, st1, node.lineno):
+                    if isinstance(r, Raise):
+                        yield st2, ("raise", r.exc)
+                    else:
+                        yield from apply(i + 1, r, st2)
+
+        yield from apply(0, standin, st)
 
     def make_closure(self, node, st, fr):
         f = st.frames[fr]
